@@ -151,4 +151,15 @@ CHECKS = {
         assumptions=SIM_ASSUMPTIONS + ["requests to distinct objects commute in the sim, so 'prefix + any subset of child writes' covers every order the map iteration can produce; the order of the (at most three) ControllerRevision writes of one sync is the one the run produced",
                                        "random pairs of faults are outside this technique family; pairs are not claimed"],
     ),
+    "C12": dict(
+        level="fault_enumeration",
+        rule="base scenarios: composite 'mixed' sync (finalizer add, adopt, release, delete undesired, in-place update, recreate, create, status write), composite 'rolling' (second move of a rollout: ControllerRevision writes + child update), decorator 'mixed' (finalizer, label/annotation/status writes, attachment create/update/recreate/delete); "
+             "every request of the sync x each of 404, 409, 410, 422, 500, timeout, lost response (singles exhaustively; thorough: all pairs of requests for 409/500/timeout), sticky per-child failures x 3 kinds, a failing child combined with a benign end of the status path, hook 500/503/429/refused/garbage; each through the real processNextWorkItem, then fault-free to quiescence",
+        units=[
+            dict(pkg=COMPOSITE, test="TestVerifC12", shards=dict(quick=8, thorough=16), budget=dict(quick=300, thorough=1800)),
+            dict(pkg=DECORATOR, test="TestVerifC12", shards=dict(quick=2, thorough=4), budget=dict(quick=300, thorough=900)),
+        ],
+        assumptions=SIM_ASSUMPTIONS + ["answers the code must treat as failures are fabricated at the request; whether a (request, kind) pair is a documented benign race is a table written from the statement (tolerated: nothing asserted about the error)",
+                                       "random multi-fault sequences are outside this technique family; bounded exhaustive pairs replace them"],
+    ),
 }
